@@ -25,6 +25,8 @@ type faultReader struct {
 	pos      int
 	failAt   int // -1 = never
 	chunk    int
+	sched    []int // sizes of the first reads; afterwards chunk applies
+	si       int
 	tripped  bool
 	seekable bool
 }
@@ -38,8 +40,16 @@ func (f *faultReader) Read(p []byte) (int, error) {
 		return 0, io.EOF
 	}
 	n := len(p)
-	if f.chunk > 0 && n > f.chunk {
+	if f.si < len(f.sched) {
+		if n > f.sched[f.si] {
+			n = f.sched[f.si]
+		}
+		f.si++
+	} else if f.chunk > 0 && n > f.chunk {
 		n = f.chunk
+	}
+	if n < 1 {
+		n = 1
 	}
 	if n > len(f.data)-f.pos {
 		n = len(f.data) - f.pos
